@@ -47,7 +47,11 @@ def pmap(func, tasks, nworkers=None):
                     data = pickle.dumps(("ok", out), protocol=pickle.HIGHEST_PROTOCOL)
                 except BaseException as exc:
                     tb = traceback.extract_tb(exc.__traceback__)
-                    inner = tb[-1].filename if tb else ""
+                    inner = ""
+                    for fr in reversed(tb):
+                        if "/okdmr/" in fr.filename or "/verif/" in fr.filename:
+                            inner = fr.filename
+                            break
                     fn = ""
                     for fr in reversed(tb):
                         if "/okdmr/" in fr.filename:
